@@ -1,6 +1,25 @@
 (* WorldProofs.v -- the concrete listeners of theories/World.v: recorders, bound callables, bound
-   interpreters, property statecharts (C10 delivery / fail fast / sync, C15 delivery / filter /
-   detach). *)
+   interpreters, property statecharts (C10 delivery / fail fast / sync / non-intrusive, C15
+   delivery / filter / detach / prefix).  Depends on MetaProofs.v.  No axioms.
+
+   One meta-event, one listener:   deliver_one_log / _calls / _bound / _frame / _no_error,
+                                   queue_event_as_external, C10_failfast_prop(_iff), C10_sync.
+   One meta-event, all listeners:  C10_failfast_deliver, deliver_called, C10_recorder_gets_all,
+                                   C10_recorder_once, C15_detach, C15_delivery(_once), C15_filter,
+                                   C10_failfast_emit1.
+   Successive meta-events:         feed1_ok_run (event-major, listener-minor in binding order),
+                                   feed1_log / feed1_calls / feed1_bound.
+   A whole execute_once1:          C10_complete_recorder, C15_delivery_complete,
+                                   C10_prefix_recorder, C15_prefix_callable,
+                                   C10_nonintrusive_world / _no_prop / _returns.
+   Module Example: non-vacuity (vm_compute): recorder log = spec_meta on a concrete chart with a
+   recorder, a bound callable, a bound interpreter and a property statechart attached.
+
+   Notes.  The world keeps one log per listener, so the global delivery order is stated through
+   the shape of the folds (run = left fold over the listener list, feed = left fold over the
+   meta-events) rather than through one global log.  "PropertyStatechartError exactly when final"
+   is C10_failfast_prop_iff, for the case where the property interpreter's own execution returned
+   normally; its own errors are propagated unchanged (C10_failfast_prop). *)
 From Coq Require Import String List Bool ZArith Lia PeanoNat.
 From Sismic Require Import Base Chart Interp World.
 From SismicProofs Require Import MetaProofs.
@@ -624,6 +643,109 @@ Section WorldProofs.
         unfold sent_events_of. rewrite flat_map_app, map_app. f_equal.
         cbn. rewrite app_nil_r. destruct m; reflexivity.
   Qed.
+
+  (* ---------------------------------------------------------------- who can raise *)
+  Lemma deliver_no_prop now m ls : forall w,
+    (forall id, ~ In (LProp id) ls) -> snd (deliver now m ls w) = None.
+  Proof.
+    induction ls as [|l rest IH]; intros w Hn; cbn [World.deliver]; [reflexivity|].
+    assert (Hl : forall id, l <> LProp id).
+    { intros id ->. apply (Hn id). now left. }
+    pose proof (deliver_one_no_error now m l w Hl) as E.
+    destruct (deliver_one now m l w) as [w1 [e|]]; cbn in E; [discriminate|].
+    apply IH. intros id Hin. apply (Hn id). now right.
+  Qed.
+
+  Lemma feed_ok1_no_prop now ms : forall w,
+    (forall id, ~ In (LProp id) (w_listeners w)) -> feed_ok1 now ms w.
+  Proof.
+    induction ms as [|m ms IH]; intros w Hn; cbn [feed_ok]; [exact I|]. split.
+    - unfold World.emit1. now apply deliver_no_prop.
+    - apply IH. destruct (emit1_frame now m w) as [-> _]. exact Hn.
+  Qed.
+
+  (* C10_failfast, listener side.  If delivering m raises e, then e was raised by a property
+     statechart listener LProp id: the listeners before it in binding order returned normally,
+     the ones after it were not called, and e is PropertyStatechartError(id) if its interpreter
+     executed the meta-event normally and is final, or that interpreter's own error. *)
+  Theorem C10_failfast_emit1 now m w e :
+    snd (emit1 now m w) = Some e ->
+    exists pre id post psc ps,
+      w_listeners w = pre ++ LProp id :: post /\ all_ok now m pre w /\
+      prop (run now m pre w) id = Some (psc, ps) /\
+      e = match snd (prop_run (run now m pre w) now m psc ps) with
+          | inr e' => e'
+          | inl _ => EProperty id
+          end /\
+      (forall macros, snd (prop_run (run now m pre w) now m psc ps) = inl macros ->
+                      is_final (m_i (fst (prop_run (run now m pre w) now m psc ps))) = true).
+  Proof.
+    unfold World.emit1. destruct (deliver now m (w_listeners w) w) as [w' r] eqn:D. cbn [snd].
+    intros ->. apply C10_failfast_deliver in D. destruct D as (pre & l & post & L & Hok & Hd).
+    set (w1 := run now m pre w) in *.
+    assert (Hl : (forall id, l <> LProp id) -> False).
+    { intros Hl. pose proof (deliver_one_no_error now m l w1 Hl) as E. rewrite Hd in E. discriminate. }
+    destruct l as [id|id|id|id]; try (exfalso; apply Hl; intros ? ?; discriminate). clear Hl.
+    destruct (prop w1 id) as [[psc ps]|] eqn:P.
+    - exists pre, id, post, psc, ps. rewrite (C10_failfast_prop _ _ _ _ _ _ P) in Hd.
+      inversion Hd as [[Hw He]]. unfold prop_outcome in He. unfold w1 in *. clear w1.
+      repeat split; auto.
+      + destruct (snd (prop_run (run now m pre w) now m psc ps)) as [macros|e']; [|congruence].
+        destruct (is_final _); congruence.
+      + intros macros Hm. rewrite Hm in He. destruct (is_final _); [reflexivity | discriminate].
+    - rewrite (deliver_one_prop_unbound _ _ _ _ P) in Hd. discriminate.
+  Qed.
+
+  (* ---------------------------------------------------------------- C10_nonintrusive, world *)
+  Notation execute_once0 sc fuel now s :=
+    (execute_once ctx unit exec_code eval_code emit0 sc fuel now (mkM s tt [])).
+
+  Lemma emit0_ok : forall t m x, snd (emit0 t m x) = None.
+  Proof. reflexivity. Qed.
+
+  (* The monitored run (recorders, bound callables, bound interpreters, property statecharts
+     attached) against the same run with no listener at all: either some property statechart
+     listener raised -- then the monitored run stopped right there with its error, the newest
+     trace entry being the meta-event concerned -- or the two runs have the same outcome, the same
+     final interpreter state and the same trace. *)
+  Theorem C10_nonintrusive_world sc fuel now s w ms r ms0 r0 :
+    execute_once1 sc fuel now s w = (ms, r) ->
+    execute_once0 sc fuel now s = (ms0, r0) ->
+    (m_i ms = m_i ms0 /\ m_tr ms = m_tr ms0 /\ r = r0) \/
+    (exists m l' e, m_tr ms = ObMeta m :: l' /\ r = inr e /\
+                    feed_ok1 now (tr_metas ctx l') w /\
+                    snd (emit1 now m (feed1 now (tr_metas ctx l') w)) = Some e).
+  Proof.
+    unfold World.execute_once1. intros Ha Hb.
+    assert (S : sim ctx world unit (mkM s w []) (mkM s tt [])) by (split; reflexivity).
+    destruct (C10_nonintrusive_or_raised ctx exec_code eval_code sc world unit emit1 emit0 emit0_ok
+                fuel now _ _ _ _ _ _ S Ha Hb) as [H|(m & l' & e & L & K & O & E)].
+    - left. exact H.
+    - right. exists m, l', e. cbn [m_tr m_x] in *. rewrite app_nil_r in L. auto.
+  Qed.
+
+  (* no property statechart attached: the listeners are invisible *)
+  Corollary C10_nonintrusive_no_prop sc fuel now s w ms r ms0 r0 :
+    (forall id, ~ In (LProp id) (w_listeners w)) ->
+    execute_once1 sc fuel now s w = (ms, r) ->
+    execute_once0 sc fuel now s = (ms0, r0) ->
+    m_i ms = m_i ms0 /\ m_tr ms = m_tr ms0 /\ r = r0.
+  Proof.
+    intros Hn Ha Hb. destruct (C10_nonintrusive_world _ _ _ _ _ _ _ _ _ Ha Hb) as [H|H]; [exact H|].
+    destruct H as (m & l' & e & _ & _ & _ & E). exfalso.
+    unfold World.emit1 in E. rewrite deliver_no_prop in E; [discriminate|].
+    rewrite feed1_listeners. exact Hn.
+  Qed.
+
+  (* no property statechart raised (the monitored call returned normally): same run *)
+  Corollary C10_nonintrusive_returns sc fuel now s w ms macro ms0 r0 :
+    execute_once1 sc fuel now s w = (ms, inl macro) ->
+    execute_once0 sc fuel now s = (ms0, r0) ->
+    m_i ms = m_i ms0 /\ m_tr ms = m_tr ms0 /\ r0 = inl macro.
+  Proof.
+    intros Ha Hb. destruct (C10_nonintrusive_world _ _ _ _ _ _ _ _ _ Ha Hb) as [(H1 & H2 & H3)|H]; [auto|].
+    destruct H as (m & l' & e & _ & K & _). discriminate.
+  Qed.
 End WorldProofs.
 
 (* ------------------------------------------------------------------ non-vacuity *)
@@ -697,3 +819,7 @@ Print Assumptions C10_complete_recorder.
 Print Assumptions C15_delivery_complete.
 Print Assumptions C10_prefix_recorder.
 Print Assumptions C15_prefix_callable.
+Print Assumptions C10_failfast_emit1.
+Print Assumptions C10_nonintrusive_world.
+Print Assumptions C10_nonintrusive_no_prop.
+Print Assumptions C10_nonintrusive_returns.
